@@ -257,8 +257,19 @@ func (a *w3Analysis) getWindow(root string, chains []*w3Chain, T time.Time, D ti
 		a.violate("C29", "get-fails", "get?%s panicked: %s", q.Encode(), pn)
 		return
 	}
+	inGap := false
 	if c == nil {
-		return // the window starts in a gap: only a well-formed answer is required
+		// the window starts in a gap (or before everything): the samples it covers are those of
+		// the next run of segments, as for a window that starts before the first recording
+		for _, x := range chains {
+			if x.start.After(T) && x.start.Before(T.Add(D)) && (c == nil || x.start.Before(c.start)) {
+				c = x
+			}
+		}
+		if c == nil {
+			return // nothing recorded inside the window: only a well-formed answer is required
+		}
+		inGap = true
 	}
 	// expected per track: pre-roll since the last random-access sample before T, then the samples in [T, T+D)
 	type key struct{ track int }
@@ -286,11 +297,35 @@ func (a *w3Analysis) getWindow(root string, chains []*w3Chain, T time.Time, D ti
 	for _, v := range expVisible {
 		nvis += len(v)
 	}
+	// the non-fragmented output must at least be produced whenever the window holds media
+	// (its samples are not compared: the independent reader only reads fragmented files)
+	if nvis > 0 && len(a.violations) == 0 {
+		q2 := url.Values{}
+		q2.Set("path", "cam")
+		q2.Set("start", T.Format(time.RFC3339Nano))
+		q2.Set("duration", fmt.Sprintf("%.6f", D.Seconds()))
+		q2.Set("format", "mp4")
+		st2, body2, pn2 := a.call(root, "get", q2.Encode())
+		if pn2 != "" {
+			a.violate("C29", "get-fails", "get?%s panicked: %s", q2.Encode(), pn2)
+			return
+		}
+		if st2 != 200 && st == 200 {
+			a.violate("C29", "get-missing-mp4", "get?%s answered %d (%s) although %d recorded samples fall inside the window and the same request with format=fmp4 is answered with media", q2.Encode(), st2, strings.TrimSpace(string(body2)), nvis)
+			return
+		}
+	}
 	if st != 200 {
 		if nvis > 0 {
 			for _, v := range expVisible {
 				if len(v) > 0 {
-					a.missing(q.Encode(), c, T, v[0], fmt.Sprintf("the request answered %d (%s) although %d recorded samples fall inside the window", st, strings.TrimSpace(string(body)), nvis))
+					what := fmt.Sprintf("the request answered %d (%s) although %d recorded samples fall inside the window", st, strings.TrimSpace(string(body)), nvis)
+					if inGap {
+						a.violate("C29", "get-missing-after-gap", "get?%s: the window starts %s before a recording (in a gap after an earlier one, or before everything) and covers sample %d of track %d recorded at %s: %s",
+							q.Encode(), c.start.Sub(T), v[0].id, v[0].track, v[0].t.Format(time.RFC3339Nano), what)
+					} else {
+						a.missing(q.Encode(), c, T, v[0], what)
+					}
 					break
 				}
 			}
